@@ -208,7 +208,10 @@ func (rt *Transfer) ReceiveFileList() ([]*File, error) {
 		fmt.Fprintln(rt.Env.Stdout, "receiving file list...")
 		fmt.Fprint(rt.Env.Stdout, "0 files to consider")
 	}
-	lastFileEntry := new(File)
+	// Like rsync/flist.c:receive_file_entry, whose static modtime starts out
+	// as 0: a sender may flag the first entry XMIT_SAME_TIME if its mtime is
+	// the epoch.
+	lastFileEntry := &File{ModTime: time.Unix(0, 0)}
 	var fileList []*File
 	for {
 		b, err := rt.Conn.ReadByte()
